@@ -127,10 +127,15 @@ def formValue (k : Kind) (form : String) : Option Str :=
   let n := kindTok k
   match form with
   | "n" => some n
+  -- Gateway certificateRefs[].namespace = b / a with a bare name: the converter does not read the
+  -- attribute (`TODO implement certRef.Namespace`), the name resolves in the Gateway's namespace
+  | "nsother" => if k = .crt then some n else none
+  | "nsown" => if k = .crt then some n else none
   | "own" => some (nsA ++ ['/'] ++ n)
   | "other" => some (nsB ++ ['/'] ++ n)
   | "file" => if k = .svc then none else some ("file:///F/local-".toList ++ n)
   | "fileb" => if k = .svc || k = .pw then none else some ("file:///D/b_".toList ++ n)
+  | "secn" => if k = .svc then none else some ("secret://".toList ++ n)
   | "secother" => if k = .svc then none else some ("secret://b/".toList ++ n)
   | "secown" => if k = .svc then none else some ("secret://a/".toList ++ n)
   | _ => none
